@@ -52,12 +52,15 @@ Inductive pc :=
 Record heapcell := { h_rv : list N; h_pat : list (list piece); h_conv : list convspec }.
 Definition cell0 : heapcell := {| h_rv := []; h_pat := []; h_conv := [] |}.
 
+(* [s_dict i] = the identity of the `params = {}` dict object thread i's find() created (passed
+   on to _compile_and_find and to the compiled finder); [s_next] = the allocator *)
 Record state := { s_slot : fref; s_rv : lref; s_pat : lref; s_conv : lref;
-                  s_lock : option nat; s_pc : nat -> pc; s_heap : nat -> heapcell }.
+                  s_lock : option nat; s_pc : nat -> pc; s_heap : nat -> heapcell;
+                  s_dict : nat -> option nat; s_next : nat }.
 
 Definition state0 : state :=
   {| s_slot := Delayed; s_rv := RInit; s_pat := RInit; s_conv := RInit; s_lock := None;
-     s_pc := fun _ => P0; s_heap := fun _ => cell0 |}.
+     s_pc := fun _ => P0; s_heap := fun _ => cell0; s_dict := fun _ => None; s_next := 0%nat |}.
 
 Definition fupd {A} (f : nat -> A) (k : nat) (v : A) : nat -> A :=
   fun j => if Nat.eqb j k then v else f j.
@@ -99,7 +102,8 @@ Definition call (st : state) (cmap : list nat) (rv pat cv : lref) (path : list s
 
 Definition set_pc (st : state) (i : nat) (p : pc) : state :=
   {| s_slot := s_slot st; s_rv := s_rv st; s_pat := s_pat st; s_conv := s_conv st;
-     s_lock := s_lock st; s_pc := fupd (s_pc st) i p; s_heap := s_heap st |}.
+     s_lock := s_lock st; s_pc := fupd (s_pc st) i p; s_heap := s_heap st;
+       s_dict := s_dict st; s_next := s_next st |}.
 
 Definition app_rv (c : heapcell) (r : N) : heapcell :=
   {| h_rv := h_rv c ++ [r]; h_pat := h_pat c; h_conv := h_conv c |}.
@@ -112,7 +116,16 @@ Definition app_conv (c : heapcell) (x : convspec) : heapcell :=
    stutters *)
 Definition step (st : state) (i : nat) : state :=
   match s_pc st i with
-  | P0 => set_pc st i (P1 (s_slot st))
+  | P0 =>
+    (* find(): `params = {}` (a new dict object), then f = self._find; on re-entry from
+       _compile_and_find the same dict is passed on *)
+    match s_dict st i with
+    | Some _ => set_pc st i (P1 (s_slot st))
+    | None =>
+      {| s_slot := s_slot st; s_rv := s_rv st; s_pat := s_pat st; s_conv := s_conv st;
+         s_lock := s_lock st; s_pc := fupd (s_pc st) i (P1 (s_slot st)); s_heap := s_heap st;
+         s_dict := fupd (s_dict st) i (Some (s_next st)); s_next := S (s_next st) |}
+    end
   | P1 f => set_pc st i (P2 f (s_rv st))
   | P2 f rv => set_pc st i (P3 f rv (s_pat st))
   | P3 f rv pat => set_pc st i (PCall f rv pat (s_conv st))
@@ -123,7 +136,8 @@ Definition step (st : state) (i : nat) : state :=
       match s_lock st with
       | Some _ => st
       | None => {| s_slot := s_slot st; s_rv := s_rv st; s_pat := s_pat st; s_conv := s_conv st;
-                   s_lock := Some i; s_pc := fupd (s_pc st) i PChk; s_heap := s_heap st |}
+                   s_lock := Some i; s_pc := fupd (s_pc st) i PChk; s_heap := s_heap st;
+       s_dict := s_dict st; s_next := s_next st |}
       end
     else set_pc st i PChk
   | PChk =>
@@ -134,23 +148,28 @@ Definition step (st : state) (i : nat) : state :=
   | PC1 => {| s_slot := s_slot st; s_rv := ROwn i; s_pat := s_pat st; s_conv := s_conv st;
               s_lock := s_lock st; s_pc := fupd (s_pc st) i PC2;
               s_heap := fupd (s_heap st) i {| h_rv := []; h_pat := h_pat (s_heap st i);
-                                              h_conv := h_conv (s_heap st i) |} |}
+                                              h_conv := h_conv (s_heap st i) |};
+              s_dict := s_dict st; s_next := s_next st |}
   | PC2 => {| s_slot := s_slot st; s_rv := s_rv st; s_pat := ROwn i; s_conv := s_conv st;
               s_lock := s_lock st; s_pc := fupd (s_pc st) i PC3;
               s_heap := fupd (s_heap st) i {| h_rv := h_rv (s_heap st i); h_pat := [];
-                                              h_conv := h_conv (s_heap st i) |} |}
+                                              h_conv := h_conv (s_heap st i) |};
+              s_dict := s_dict st; s_next := s_next st |}
   | PC3 => {| s_slot := s_slot st; s_rv := s_rv st; s_pat := s_pat st; s_conv := ROwn i;
               s_lock := s_lock st; s_pc := fupd (s_pc st) i (PGen script []);
               s_heap := fupd (s_heap st) i {| h_rv := h_rv (s_heap st i); h_pat := h_pat (s_heap st i);
-                                              h_conv := [] |} |}
+                                              h_conv := [] |};
+              s_dict := s_dict st; s_next := s_next st |}
   | PGen (AppRv r :: todo) cmap =>
     {| s_slot := s_slot st; s_rv := s_rv st; s_pat := s_pat st; s_conv := s_conv st;
        s_lock := s_lock st; s_pc := fupd (s_pc st) i (PGen todo cmap);
-       s_heap := fupd (s_heap st) i (app_rv (s_heap st i) r) |}
+       s_heap := fupd (s_heap st) i (app_rv (s_heap st i) r);
+       s_dict := s_dict st; s_next := s_next st |}
   | PGen (AppPat p :: todo) cmap =>
     {| s_slot := s_slot st; s_rv := s_rv st; s_pat := s_pat st; s_conv := s_conv st;
        s_lock := s_lock st; s_pc := fupd (s_pc st) i (PGen todo cmap);
-       s_heap := fupd (s_heap st) i (app_pat (s_heap st i) p) |}
+       s_heap := fupd (s_heap st) i (app_pat (s_heap st i) p);
+       s_dict := s_dict st; s_next := s_next st |}
   | PGen (AppConv c :: todo) cmap =>
     (* through self: whichever list self._converters refers to now *)
     match s_conv st with
@@ -159,15 +178,18 @@ Definition step (st : state) (i : nat) : state :=
       {| s_slot := s_slot st; s_rv := s_rv st; s_pat := s_pat st; s_conv := s_conv st;
          s_lock := s_lock st;
          s_pc := fupd (s_pc st) i (PGen todo (cmap ++ [length (h_conv (s_heap st u))]));
-         s_heap := fupd (s_heap st) u (app_conv (s_heap st u) c) |}
+         s_heap := fupd (s_heap st) u (app_conv (s_heap st u) c);
+       s_dict := s_dict st; s_next := s_next st |}
     end
   | PGen [] cmap =>
     {| s_slot := Compiled cmap; s_rv := s_rv st; s_pat := s_pat st; s_conv := s_conv st;
-       s_lock := s_lock st; s_pc := fupd (s_pc st) i PRel; s_heap := s_heap st |}
+       s_lock := s_lock st; s_pc := fupd (s_pc st) i PRel; s_heap := s_heap st;
+       s_dict := s_dict st; s_next := s_next st |}
   | PRel =>
     {| s_slot := s_slot st; s_rv := s_rv st; s_pat := s_pat st; s_conv := s_conv st;
        s_lock := if use_lock then None else s_lock st;
-       s_pc := fupd (s_pc st) i P0; s_heap := s_heap st |}
+       s_pc := fupd (s_pc st) i P0; s_heap := s_heap st;
+       s_dict := s_dict st; s_next := s_next st |}
   | PDone _ => st
   end.
 
